@@ -731,3 +731,116 @@ func ruleNameSetExact(c *Ctx, rule string) {
 	})
 	c.R.Floor(rule, "insertions into the JSON-name set", n, 2)
 }
+
+func init() {
+	p := Properties["C05"]
+	p.Rules = append(p.Rules, Rule{"C05/union-variants", ruleC05UnionVariants})
+}
+
+// The union keywords (type, items, dependencies) are decoded into the Go field
+// of the variant actually present: each variant field is assigned only under
+// its own discriminator, and a decoded array that may be empty is assigned as
+// decoded (not rebuilt with append, which turns an empty array into nil).
+func ruleC05UnionVariants(c *Ctx) {
+	const rule = "C05/union-variants"
+	unm := c.fn("(*Schema).UnmarshalJSON")
+	if unm == nil {
+		c.R.Unresolved(rule, "(*Schema).UnmarshalJSON")
+		return
+	}
+	// variant field -> byte that must (true) / must not (false) be the first byte of the raw value
+	type want struct {
+		b   byte
+		pol bool
+	}
+	wants := map[string]want{
+		"Type": {'"', true}, "Types": {'[', true},
+		"ItemsArray": {'[', true}, "Items": {'[', false},
+		"DependencyStrings": {'[', true}, "DependencySchemas": {'[', false},
+	}
+	n := 0
+	for _, fn := range core.WithAnon(unm) {
+		core.EachInstr(fn, func(i ssa.Instruction) {
+			var field string
+			var at ssa.Instruction
+			var val ssa.Value
+			switch x := i.(type) {
+			case *ssa.Store:
+				if fa, ok := x.Addr.(*ssa.FieldAddr); ok && c.ownerName(fa.X.Type()) == "Schema" {
+					field, at, val = core.StructField(fa.X.Type(), fa.Field).Name(), x, x.Val
+				}
+			case *ssa.MapUpdate:
+				for _, s := range traceSources(x.Map) {
+					if ld, ok := s.(*ssa.UnOp); ok {
+						if fa, ok := ld.X.(*ssa.FieldAddr); ok && c.ownerName(fa.X.Type()) == "Schema" {
+							field, at = core.StructField(fa.X.Type(), fa.Field).Name(), x
+						}
+					}
+				}
+			case *ssa.Call:
+				if core.CalleeKey(&x.Call) == "encoding/json.Unmarshal" {
+					if fa, ok := peelIface(x.Call.Args[1]).(*ssa.FieldAddr); ok && c.ownerName(fa.X.Type()) == "Schema" {
+						field, at = core.StructField(fa.X.Type(), fa.Field).Name(), x
+					}
+				}
+			}
+			w, ok := wants[field]
+			if !ok {
+				return
+			}
+			// lazily created maps (s.DependencyStrings = make(...)) are part of their variant too
+			n++
+			discr, found := false, false
+			for _, g := range controlGuards(at) {
+				x, k, equal, isEq := eqConst(g)
+				if !isEq {
+					continue
+				}
+				kv, isInt := constInt(k)
+				if !isInt || !isFirstByte(x) {
+					continue
+				}
+				found = true
+				if byte(kv) == w.b && equal == w.pol {
+					discr = true
+				}
+				if byte(kv) != w.b && w.pol && equal {
+					// assigned under another variant's discriminator
+					discr = false
+					c.R.Bad(rule, "variant:"+field+":wrong-discriminator", c.pos(at), fmt.Sprintf("Schema.%s is assigned when the raw value starts with %q: the document's variant is not preserved (e.g. a one-element type list becomes a single type), so marshaling again does not reproduce an equivalent document", field, string(rune(kv))))
+					return
+				}
+			}
+			if !found {
+				c.R.Bad(rule, "variant:"+field, c.pos(at), "Schema."+field+" is assigned without a test of the raw value's first byte")
+				return
+			}
+			c.R.Check(discr, rule, "variant:"+field, c.pos(at), fmt.Sprintf("assigned only when the raw value %s with %q", map[bool]string{true: "starts", false: "does not start"}[w.pol], string(rune(w.b))), fmt.Sprintf("Schema.%s is not assigned under its own discriminator (first byte %q, polarity %v)", field, string(rune(w.b)), w.pol))
+			// empty arrays must survive: the value stored must not be rebuilt with append from a possibly nil base
+			if val != nil && (field == "ItemsArray" || field == "Types") {
+				if call, ok := val.(*ssa.Call); ok && core.CalleeKey(&call.Call) == "builtin.append" {
+					c.R.Bad(rule, "variant:"+field+":empty-preserved", c.pos(at), "Schema."+field+" is rebuilt element by element with append: an empty array in the document leaves the field nil, so `\"items\": []` (which hands every item to additionalItems) or `\"type\": []` is lost")
+				}
+			}
+		})
+	}
+	c.R.Floor(rule, "assignments of union variant fields", n, 6)
+}
+
+// isFirstByte: v is raw[0] for a raw JSON value.
+func isFirstByte(v ssa.Value) bool {
+	ld, ok := v.(*ssa.UnOp)
+	if !ok {
+		return false
+	}
+	ia, ok := ld.X.(*ssa.IndexAddr)
+	if !ok {
+		return false
+	}
+	k, ok := ia.Index.(*ssa.Const)
+	if !ok {
+		return false
+	}
+	kv, ok := constInt(k)
+	return ok && kv == 0
+}
